@@ -346,7 +346,10 @@ func (g *surfGen) form() string {
 		// control transfers out of / inside a package body; declarations without a body; splice at top level
 		g.labels["package-body-jump-or-bodiless-func"] = true
 		n := g.name("pj")
-		switch rapid.IntRange(0, 3).Draw(g.t, "pjshape") {
+		switch rapid.IntRange(0, 4).Draw(g.t, "pjshape") {
+		case 4:
+			// a splice with no template around it: whatever it means, a successful one leaves nothing behind
+			return fmt.Sprintf("(def l%s (list 1 2))\n^~@l%s\n(trace 3)", n, n)
 		case 0:
 			return fmt.Sprintf("(for [(def i 0) (< i 3) (def i (+ i 1))] (package %q (def A i) (cond (== i 1) (break) nil)) (trace i))", n)
 		case 1:
